@@ -186,6 +186,20 @@ type rServer struct {
 	e    *echo.Echo
 	out  *rOutcome
 	host string // non-empty: the table lives in the router of this host, registered through a sub-group of the host group
+	hg   *echo.Group
+}
+
+// add registers one more route on a server that has already served requests.
+func (s *rServer) add(r rRoute, id int) {
+	h := func(c echo.Context) error {
+		*s.out = rOutcome{status: 200, id: id, names: append([]string(nil), c.ParamNames()...), vals: append([]string(nil), c.ParamValues()...), path: c.Path()}
+		return c.NoContent(http.StatusOK)
+	}
+	if s.hg != nil {
+		s.hg.Add(r.method, r.pattern, h)
+		return
+	}
+	s.e.Add(r.method, r.pattern, h)
 }
 
 var rBuildCount int
@@ -202,6 +216,7 @@ func rBuild(rs []rRoute, ids []int) *rServer {
 		// every fifth table is served for a host name, registered through Echo.Host(name).Group(""): host routing in front of it
 		s.host = "tables.example.com"
 		hostGroup = s.e.Host(s.host).Group("")
+		s.hg = hostGroup
 	}
 	for k, r := range rs {
 		id := ids[k]
